@@ -14,6 +14,7 @@ static void mon_read_result(struct DataAccess *obj, _Bool ok) { (void)obj; (void
 enum { DriveAllocation_FIRST = 1, DriveAllocation_PHYSICAL = 2 };
 static struct occ_fn h_occ;
 static size_t g_new_n;              /* drives connected by this call */
+static size_t g_drives_size;        /* drives_.size(): number of drives connected before the call (unconstrained) */
 static surface_t g_new0, g_new1;
 static surface_t g_m;               /* ghost drive number (unconstrained) */
 #define SPEC_OPPOSITE_(d) (((d) % 4u) < 2u ? (d) + 2u : (d) - 2u)
